@@ -27,6 +27,7 @@ plugging in different transport and executor implementations without changing co
 """
 
 import uuid
+import copy
 import queue
 import threading
 from concurrent.futures import Future
@@ -129,9 +130,18 @@ class QueueSemantivaOrchestrator:
 
         profile_dict = profile.as_dict() if profile is not None else None
 
-        # 4) Place the job on the internal FIFO queue
+        # 4) Place the job on the internal FIFO queue.  The job works on its own copy
+        #    of the context: the in-memory transport passes objects by reference and
+        #    the worker writes into the context (results, job_id), so one context
+        #    object handed to several jobs made them overwrite each other's job_id
+        #    and values.  A context that cannot be copied is passed as it is.
+        job_context = context or ContextType()
+        try:
+            job_context = copy.deepcopy(job_context)
+        except Exception:
+            pass
         self.job_queue.put(
-            (job_id, pipeline_cfg, data, context or ContextType(), profile_dict)
+            (job_id, pipeline_cfg, data, job_context, profile_dict)
         )  # Enqueue a tuple with (job_id, pipeline_cfg, data, context, registry_profile)
         self.logger.info(f"Enqueued job {job_id}")
 
